@@ -66,16 +66,25 @@ def run(ctx):
     # rotation = from_rotation_matrix(from_matrix_unchecked(D * B^T))
     m = rot
     chain = []
-    while isinstance(m, tuple) and m[0] == 'call' and cname(m[1]).split('::')[-1] in ('from_rotation_matrix', 'from_matrix_unchecked', 'from_matrix'):
+    while isinstance(m, tuple) and m[0] == 'call' and cname(m[1]).split('::')[-1] in ('from_rotation_matrix', 'from_matrix_unchecked', 'from_matrix', 'into', 'from') and len(m) == 3:
         chain.append(cname(m[1]).split('::')[-1])
         m = strip(m[2])
+    if 'from_rotation_matrix' not in chain and chain[:1] in (['into'], ['from']) and chain[1:2] == ['from_matrix_unchecked']:
+        chain.append('from_rotation_matrix')        # UnitQuaternion::from(Rotation3) is from_rotation_matrix
     D = B = None
     ok = False
     if isinstance(m, tuple) and m[0] == 'call' and cname(m[1]).endswith('::mul'):
         d, bt = strip(m[2]), strip(m[3])
         if isinstance(bt, tuple) and bt[0] == 'call' and cname(bt[1]).endswith('::transpose'):
             D, B = _columns(d), _columns(strip(bt[2]))
+            if D is None and B is None:
+                # both bases from one helper fn(..) -> Option<Matrix3>: its Some payload with the arguments of each call written in
+                D, B = _helper_columns(prog, d), _helper_columns(prog, strip(bt[2]))
             ok = D is not None and B is not None
+        elif _rows_transposed(bt) is not None:
+            # the transposed source basis written as the matrix having the axes as rows
+            D, B = _columns(d), _rows_transposed(bt)
+            ok = D is not None
     ctx.check(ok and 'from_rotation_matrix' in chain, 'R17.2', 'rotation', fr.where(oks[0][1][1]), fr.path,
               'the rotation must be from_columns(target basis) * transpose(from_columns(source basis))', found=show(m, maxdepth=4), detail='D * B^T')
     if D is None or B is None:
@@ -123,6 +132,10 @@ def run(ctx):
         cg = _collinear_guard(g, v)
         if cg is not None:
             col.append((g, cg[0], cg[1]))
+    for g, k, sw in fr.guard_terms(oks[0][1][1]):
+        hg = _helper_guard(prog, g, k)
+        if hg is not None:
+            col.append(hg)
     ctx.check(len(col) == 2 and all(c is False for g, c, th in col), 'R17.3', 'collinearity-guards', fr.where(0), fr.path, 'both collinearity tests must pass before the frame is built')
     big = [th for g, c, th in col if th is None or th > 1e-12]
     ctx.check(not big, 'R17.3', 'collinearity-threshold', fr.where(0), fr.path,
@@ -144,6 +157,10 @@ def run(ctx):
             pts = [util.param_index(x) for x in inner[2:5]]
             flag = util.const_val(inner[5])
             cgs = [(g, _collinear_guard(g, v)) for g, v in g2 if _collinear_guard(g, v) is not None]
+            for g_, k_, sw_ in fr.guard_terms(d[1]):
+                hg = _helper_guard(prog, g_, k_)
+                if hg is not None:
+                    cgs.append((hg[0], (hg[1], hg[2])))
             if not cgs:
                 ctx.violation('R17.3', 'collinear-error-guard', fr.where(d[1]), fr.path, 'a ColinearPoints error is returned on a path that no collinearity test guards')
                 continue
@@ -172,6 +189,7 @@ def run(ctx):
             if isinstance(t_, tuple) and t_[0] == 'call' and cname(t_[1]) == 'Iterator::all' and len(t_) == 4:
                 base, ad = util.iter_chain(t_[2])
                 base = strip(base)
+                base = _index_table(base)
                 acb, acaps = util.closure_of_term(prog, t_[3])
                 arv = acb.return_values() if acb is not None else []
                 if isinstance(base, tuple) and base[0] == 'agg' and base[1] == 'array' and all(a in ('iter', 'into_iter', 'copied', 'cloned') for a in ad) and len(arv) == 1:
@@ -224,7 +242,99 @@ def run(ctx):
         r = strip(rt[3])
         ok = isinstance(t, tuple) and t[0] == 'call' and cname(t[1]).endswith('::sub') and util.is_param(t[2], 2) and util.is_param(t[3], 1) and \
             isinstance(r, tuple) and r[0] == 'call' and cname(r[1]).endswith('::identity')
+    if not ok and isinstance(rt, tuple) and rt[0] == 'call' and cname(rt[1]) in ('Into::into', 'From::from') and len(rt) == 3:
+        # Translation3::from(q - p).into(): the conversion Translation -> Isometry is the translation with the identity rotation
+        conv = [t2 for bi2, t2 in tl.calls() if cname(callee_name(t2)) in ('Into::into', 'From::from') and strip(tl.call_term(t2, (bi2, None))) == rt]
+        targs = str(conv[0]['callee'].get('args')) if len(conv) == 1 else ''
+        pair = targs.strip('[]').split(', kinematic_traits::na::')
+        from_translation = 'Translation<' in targs.split('Isometry<')[0] and 'Isometry<' in targs and 'Isometry<' in tl.local_ty(0)
+        t = strip(rt[2])
+        while isinstance(t, tuple) and t[0] == 'call' and cname(t[1]).split('::')[-1] in ('into', 'from') and len(t) == 3:
+            t = strip(t[2])
+        ok = from_translation and isinstance(t, tuple) and t[0] == 'call' and cname(t[1]).endswith('::sub') and util.is_param(t[2], 2) and util.is_param(t[3], 1)
     ctx.check(ok, 'R17.4', 'translation-frame', tl.where(0), tl.path, 'Frame::translation must be (q - p, identity)', found=show(rt, maxdepth=4))
+
+
+def _index_table(t):
+    """a constant `[(usize, usize); N]` evaluated by the compiler (const SIDES: .. = [(0, 1), (0, 2), (1, 2)]) as the literal it stands for"""
+    import re
+    if isinstance(t, tuple) and t[0] == 'const' and isinstance(t[1], str) and isinstance(t[2], str):
+        m = re.match(r'^raw:\[\(usize, usize\); (\d+)\]$', t[1])
+        if m and len(t[2]) == int(m.group(1)) * 32:
+            vals = [int.from_bytes(bytes.fromhex(t[2][k:k + 16]), 'little') for k in range(0, len(t[2]), 16)]
+            c = lambda v: ('const', 'usize', v, None)
+            return ('agg', 'array') + tuple(('agg', 'tuple', c(vals[2 * k]), c(vals[2 * k + 1])) for k in range(len(vals) // 2))
+    return t
+
+
+def _helper_call(prog, x):
+    """the call of a crate-local helper returning Option<..> behind x, through `?` / ok_or_else: (call term, helper body, through `?`)"""
+    x = strip(x)
+    via_try = False
+    while isinstance(x, tuple) and x[0] == 'call' and cname(x[1]) in ('Try::branch', 'Option::ok_or_else', 'Option::ok_or') and len(x) >= 3:
+        via_try = via_try or cname(x[1]) == 'Try::branch'
+        x = strip(x[2])
+    if isinstance(x, tuple) and x[0] == 'call' and x[1] in prog.bodies and prog.bodies[x[1]].kind != 'Closure' and 'Option<' in prog.bodies[x[1]].local_ty(0):
+        return x, prog.bodies[x[1]], via_try
+    return None
+
+
+def _helper_columns(prog, t):
+    """columns of the matrix a helper `fn(..) -> Option<Matrix3>` returns as Some(from_columns(&[..])), its parameters replaced by the call's arguments"""
+    t = strip(t)
+    if not (isinstance(t, tuple) and t[0] == 'fld' and isinstance(strip(t[1]), tuple) and strip(t[1])[0] == 'as'):
+        return None
+    hc = _helper_call(prog, strip(t[1])[1])
+    if hc is None:
+        return None
+    call, hb, via_try = hc
+    somes = [strip(rv) for rv, d, rb in hb.return_values() if isinstance(strip(rv), tuple) and strip(rv)[0] == 'agg' and 'Some' in str(strip(rv)[1])]
+    if len(somes) != 1:
+        return None
+    cols = _columns(somes[0][2])
+    if cols is None:
+        return None
+    return [strip(util.subst_params(c, call[2:])) for c in cols]
+
+
+def _helper_guard(prog, g, k):
+    """(test, collinear on this edge?, threshold) when g is the discriminant of such a helper call: the helper answers None
+    exactly on the collinear edge of its own |a x b| test, so its Some edge is that test passed (arguments written in)"""
+    g = strip(g)
+    if not (isinstance(g, tuple) and g[0] == 'discr'):
+        return None
+    hc = _helper_call(prog, g[1])
+    if hc is None:
+        return None
+    call, hb, via_try = hc
+    nones = [d for rv, d, rb in hb.return_values() if isinstance(strip(rv), tuple) and strip(rv)[0] == 'agg' and 'None' in str(strip(rv)[1]) and d]
+    somes = [d for rv, d, rb in hb.return_values() if isinstance(strip(rv), tuple) and strip(rv)[0] == 'agg' and 'Some' in str(strip(rv)[1]) and d]
+    if len(nones) != 1 or len(somes) != 1:
+        return None
+    ncg = [(g2, _collinear_guard(g2, opw.truth(k2))) for g2, k2, sw2 in hb.guard_terms(nones[0][1])]
+    scg = [(g2, _collinear_guard(g2, opw.truth(k2))) for g2, k2, sw2 in hb.guard_terms(somes[0][1])]
+    ncg = [(g2, c) for g2, c in ncg if c is not None]
+    scg = [(g2, c) for g2, c in scg if c is not None]
+    if len(ncg) != 1 or len(scg) != 1 or ncg[0][1][0] is not True or scg[0][1][0] is not False:
+        return None
+    if k not in (0, 1):
+        return None
+    some_edge = (k == 0) if via_try else (k == 1)          # ControlFlow::Continue = 0; Option::Some = 1
+    return strip(util.subst_params(strip(ncg[0][0]), call[2:])), (not some_edge), ncg[0][1][1]
+
+
+def _rows_transposed(t):
+    """[b1, b2, b3] when t is from_rows(&[b1.transpose(), b2.transpose(), b3.transpose()]) == transpose(from_columns(&[b1, b2, b3]))"""
+    t = strip(t)
+    if isinstance(t, tuple) and t[0] == 'call' and cname(t[1]).endswith('::from_rows'):
+        a = strip(t[2])
+        while isinstance(a, tuple) and a[0] == 'cast':
+            a = strip(a[1])
+        if isinstance(a, tuple) and a[0] == 'agg' and a[1] == 'array' and len(a) == 5:
+            rows = [strip(x) for x in a[2:]]
+            if all(isinstance(r, tuple) and r[0] == 'call' and cname(r[1]).endswith('::transpose') and len(r) == 3 for r in rows):
+                return [strip(r[2]) for r in rows]
+    return None
 
 
 def _columns(t):
